@@ -90,6 +90,7 @@ def execute(case):
             elif obj is None:
                 continue
             elif k == "edit":
+                builder.normalise_metamodules(obj)
                 s_pre = snapshot.snapshot(obj)
                 try:
                     r_pre = snapshot.snapshot(load(obj.read()))
@@ -99,6 +100,7 @@ def execute(case):
                     probes["presave_failed:" + type(e).__name__] = probes.get("presave_failed:" + type(e).__name__, 0) + 1
                     break
                 outs = [apply_edit(obj, e, case.get("layout", 1)) for e in op["edits"]]
+                builder.normalise_metamodules(obj)
                 s_post = snapshot.snapshot(obj)
                 changed = [p for p in set(s_pre) | set(s_post) if s_pre.get(p, ABSENT) != s_post.get(p, ABSENT)]
                 if changed:
